@@ -310,7 +310,7 @@ def FrPost (mode : Mode) (X : Bytes) (c : Prop) (p av : Bytes) : Ret × St × By
       (∃ p', WsInv mode st' (.fr p') ∧ frOf mode (p ++ (av ++ X)) = frOf mode (p' ++ (av' ++ X))) ∧ Prog c av av'
   | (.pkt pl, st', av') =>
       FrPre st' st'.rdHeader ∧ st'.rdHeader.length ≤ fsCap ∧
-      st'.rdHeader.length + av'.length + 3 ≤ p.length + av.length ∧
+      st'.rdHeader.length + av'.length + 3 ≤ min p.length fsCap + av.length ∧
       frOf mode (p ++ (av ++ X)) =
         (deliver (Spec.decode .ws pl) (frOf mode (st'.rdHeader ++ (av' ++ X))).1, (frOf mode (st'.rdHeader ++ (av' ++ X))).2) ∧
       Prog c av av'
@@ -320,7 +320,7 @@ def FrPost (mode : Mode) (X : Bytes) (c : Prop) (p av : Bytes) : Ret × St × By
 
 theorem FrPost_transfer (mode : Mode) (X : Bytes) (c c1 : Prop) (p av p1 av1 : Bytes) (res : Ret × St × Bytes)
     (h : FrPost mode X c1 p1 av1 res) (he : frOf mode (p ++ (av ++ X)) = frOf mode (p1 ++ (av1 ++ X)))
-    (hl : p1.length + av1.length ≤ p.length + av.length) (hav : av1.length ≤ av.length)
+    (hl : min p1.length fsCap + av1.length ≤ min p.length fsCap + av.length) (hav : av1.length ≤ av.length)
     (hs : c → av ≠ [] → av1.length < av.length) : FrPost mode X c p av res := by
   obtain ⟨ret, st', av'⟩ := res
   cases ret with
@@ -364,7 +364,7 @@ theorem readData_post (mode : Mode) (X : Bytes) (st : St) (av data D : Bytes) (b
     have hrd : st'.rdHeader = [] := hpre'.2.2.1
     refine ⟨by rw [hrd]; exact hpre', by rw [hrd]; simp, ?_, ?_, by omega, fun _ _ => hlt'⟩
     · rw [hrd]
-      simp only [List.length_nil, List.length_cons, List.length_append]
+      simp only [List.length_nil, List.length_cons, List.length_append, fsCap]
       omega
     · rw [hrd]
       simpa using hf
